@@ -127,7 +127,7 @@ func (e *Engine) verifyFunction(fn *ssa.Function, ct *Contract) {
 	}
 	st.entry = st.snapshot()
 	entryAllocs := len(st.allocs)
-	e.topVars, e.topPkg = vars, pkg
+	e.topVars, e.topPkg, e.topFrame = vars, pkg, fr
 	e.crashCheck(fr, st, "function entry")
 	// vacuity: the precondition must be satisfiable
 	e.addObligationExpect(st, fr, "vacuity:requires-satisfiable", []string{"vacuity"}, "requires", fn.String(), "sat")
@@ -947,4 +947,30 @@ func (e *Engine) crashCheck(fr *Frame, st *State, where string) {
 		}
 		e.addObligation(st, fr, "crash-invariant", ci.Tags, "crash_invariant "+ci.Src+"  @ "+where, fmt.Sprintf("%s:%d", ci.File, ci.Line), v.T, nil)
 	}
+}
+
+// topProbes / topPrefers: contract-level projection terms of the function under verification, for obligations
+// raised in the middle of a path (callee preconditions, safety).
+func (e *Engine) topProbes(st *State) []Probe {
+	if e.curC == nil || e.topVars == nil {
+		return nil
+	}
+	ctx := &EvalCtx{e: e, st: st, old: st.entry, vars: e.topVars, c: e.curC, pkg: e.topPkg, fr: e.topFrame}
+	return e.collectProbes(ctx, e.curC)
+}
+
+func (e *Engine) topPrefers(st *State) []string {
+	if e.curC == nil || e.topVars == nil {
+		return nil
+	}
+	ctx := &EvalCtx{e: e, st: st, old: st.entry, vars: e.topVars, c: e.curC, pkg: e.topPkg, fr: e.topFrame}
+	var prefs []string
+	for _, pf := range e.curC.Prefers {
+		save := len(st.pc)
+		if v, err := ctx.evalAs(pf.E, sBool); err == nil {
+			prefs = append(prefs, v.T)
+		}
+		st.pc = st.pc[:save]
+	}
+	return prefs
 }
